@@ -418,6 +418,93 @@ def validate(ctx, module, cfg, trace_rows, name=None, timeout=1800, sc_key="sc",
     return rejects
 
 
+def validate_file(ctx, module, cfg, trace_path, name=None, timeout=1800, sc_key="sc", tool_opts=None, shards=None):
+    """validate() for traces too big to hold as python objects: the trace file is cut into shards line by line (at the
+    reset events, recognised textually), and only the scenarios around rejected lines are parsed."""
+    name = name or ("val-" + module)
+    is_reset = re.compile(r'"ev"\s*:\s*"reset"')
+    nlines, starts = 0, []
+    with open(trace_path) as f:
+        for line in f:
+            if not line.strip():
+                continue
+            if is_reset.search(line):
+                starts.append(nlines)
+            nlines += 1
+    if nlines == 0:
+        return []
+    if not starts or starts[0] != 0:
+        raise Infra("trace does not start with reset")
+    nsh = shards or (1 if nlines < 20000 else min(NCPU, 1 + nlines // 20000))
+    per = (len(starts) + nsh - 1) // nsh
+    bounds = [starts[k] for k in range(0, len(starts), per)] + [nlines]
+    paths, sizes = [], []
+    with open(trace_path) as f:
+        idx, out, n, k = -1, None, 0, 0
+        for line in f:
+            if not line.strip():
+                continue
+            if idx + 1 < len(bounds) - 1 and n == bounds[idx + 1]:
+                if out:
+                    out.close()
+                    sizes.append(k)
+                idx += 1
+                paths.append(ctx.path("%s-s%d.ndjson" % (name, idx)))
+                out, k = open(paths[-1], "w"), 0
+            out.write(line if line.endswith("\n") else line + "\n")
+            n += 1
+            k += 1
+        if out:
+            out.close()
+            sizes.append(k)
+    import concurrent.futures as cf
+
+    def one(idx):
+        tp, size = paths[idx], sizes[idx]
+        res = tlc(ctx, module, cfg, name="%s-s%d" % (name, idx), workers=1, timeout=timeout,
+                  env={"TRACE": tp}, deadlock=False, tool_opts=tool_opts)
+        hw, rej = None, []
+        with open(res["out"], errors="replace") as f:
+            for line in f:
+                m = re.search(r"@HW@(\d+)", line)
+                if m:
+                    hw = int(m.group(1))
+                m = re.search(r"@REJ@(\d+)", line)
+                if m:
+                    rej.append(int(m.group(1)))
+        if not res["ok"] or hw != size + 1:
+            sys.stderr.write(res["tail"][-4000:])
+            raise Infra("trace validation of %s did not consume the trace (hw=%s of %d, errors=%s)" %
+                        (module, hw, size, res["errors"][:2]))
+        if not rej:
+            return []
+        want = sorted(set(rej))
+        out, cur, cur0, i = [], [], 0, 0      # cur: raw lines of the scenario being read, starting at line cur0
+        pending = []
+        with open(tp) as f:
+            for i, line in enumerate(f):
+                if is_reset.search(line):
+                    for ln in pending:
+                        rows = [json.loads(x) for x in cur]
+                        out.append({"sc": rows[0].get(sc_key), "line": ln - 1 - cur0, "event": rows[ln - 1 - cur0],
+                                    "inv": None, "trace": rows})
+                    pending, cur, cur0 = [], [], i
+                cur.append(line)
+                if want and want[0] == i + 1:
+                    pending.append(want.pop(0))
+        for ln in pending:
+            rows = [json.loads(x) for x in cur]
+            out.append({"sc": rows[0].get(sc_key), "line": ln - 1 - cur0, "event": rows[ln - 1 - cur0], "inv": None, "trace": rows})
+        return out
+
+    rejects = []
+    with cf.ThreadPoolExecutor(max_workers=len(paths)) as ex:
+        for out in ex.map(one, range(len(paths))):
+            rejects += out
+    ctx.add("trace_events_validated", nlines)
+    return rejects
+
+
 def _last_l_in_error_trace(res):
     l = None
     with open(res["out"], errors="replace") as f:
